@@ -162,6 +162,14 @@ func runGoNode(rc *sk.RunCtx, focus string) {
 	if relayWorld {
 		mo = meshOpts{minNodes: 3, maxNodes: 3, noFaults: true, allowP256: true, forceRelay: true}
 	}
+	// two reader routines per node (as with routines: 2): what a node received may be split over two tasks that run
+	// readOutsidePackets concurrently, and (except for C32, whose exactly-once rule is stated for a network that does
+	// not duplicate) the second reader may get copies of datagrams the first one is handling — retransmitted control
+	// messages and handshake packets meeting themselves
+	twoReaders := tp.Chance(1, 2)
+	if twoReaders {
+		mo.routines = 2
+	}
 	e0, e1 := 0, 1 // the two endpoints that talk to each other
 	if relayWorld {
 		e0, e1 = 1, 2
@@ -289,12 +297,28 @@ func runGoNode(rc *sk.RunCtx, focus string) {
 				if len(dgs) > 1 && tp.Chance(1, 2) {
 					split = 1 + tp.Choose(len(dgs)-1)
 				}
-				s.spawn(fmt.Sprintf("n%d.out", i), func() {
-					n.recvBatch(dgs[:split])
-					if split < len(dgs) {
-						n.recvBatch(dgs[split:])
-					}
-				})
+				second := dgs[split:]
+				concurrent := twoReaders && tp.Chance(2, 3)
+				if concurrent && focus != "C32" && tp.Chance(1, 2) {
+					// the network duplicates: the second reader gets a copy of something the first one has
+					c := *dgs[tp.Choose(split)]
+					c.data = append([]byte(nil), c.data...)
+					second = append([]*simDatagram{&c}, second...)
+					rc.Count("fault.duplicate_to_second_reader", 1)
+				}
+				if concurrent && len(second) > 0 {
+					roles++
+					rc.Count("probe.second_reader_tasks", 1)
+					s.spawn(fmt.Sprintf("n%d.out", i), func() { n.recvBatch(dgs[:split]) })
+					s.spawn(fmt.Sprintf("n%d.out2", i), func() { n.recvBatch2(second) })
+				} else {
+					s.spawn(fmt.Sprintf("n%d.out", i), func() {
+						n.recvBatch(dgs[:split])
+						if split < len(dgs) {
+							n.recvBatch(dgs[split:])
+						}
+					})
+				}
 			}
 		}
 		isEndpoint := i == e0 || i == e1
